@@ -12,7 +12,9 @@ EXPLANATION = ("C03: every mutating sink (mkdirat/mknodat/symlinkat/linkat/unlin
                "descend opens are proven never to be handed '.' or '..'; the set of mutating functions is closed.")
 ASSUMPTIONS = [
     "for single-entry syscalls the kernel itself refuses '.' and '..' as final component (mkdirat/mknodat/symlinkat/linkat: EEXIST; "
-    "unlinkat: EISDIR/EINVAL/ENOTEMPTY; renameat2: EBUSY/EINVAL); an O_DIRECTORY open of '..' succeeds, hence rule R3 for descend opens",
+    "unlinkat: EISDIR/EINVAL/ENOTEMPTY; renameat2: EBUSY/EINVAL; openat with O_CREAT: EISDIR, but only without O_PATH -- with O_PATH the "
+    "kernel drops O_CREAT); an O_DIRECTORY or O_PATH open of '..' succeeds, hence rule R3 for descend opens and for creating opens that "
+    "may carry O_PATH",
     "kernel d_name values never contain '/'",
 ]
 
@@ -126,6 +128,25 @@ def r3_dot_dotdot(ctx):
             out.append(violated("C03.R3", key, t.where(),
                                 "descend open (O_DIRECTORY) can be handed %s: no refusal dominates it in the function, in every caller, or in the producer of the name"
                                 % " and ".join(repr(m) for m in missing), {"excluded": sorted(ex), "proofs": proofs}))
+    # creating opens: open(O_CREAT) of '..' is refused by the kernel (EISDIR) -- unless O_PATH is set, which makes the
+    # kernel drop O_CREAT and simply open the name (fs/open.c build_open_flags: flags &= O_PATH_FLAGS)
+    ipa, pp = shared(ctx)
+    for key, t in mutating_sites(ctx):
+        if not key.split(":")[-1].startswith("openat+O_CREAT") and ":openat+O_CREAT" not in key:
+            continue
+        bits = ipa.bits_of(t.body.path)
+        v = bits.arg_value(t, 2) if bits else None
+        if v is not None and v.lacks(O_PATH):
+            out.append(holds("C03.R3", key + ":dotdot", t.where(), "O_PATH cannot reach the creating open, so O_CREAT is honoured and the kernel refuses '..' (EISDIR)"))
+            continue
+        ex, proofs = X.excluded_for_arg(t, 1)
+        if ".." in ex:
+            out.append(holds("C03.R3", key + ":dotdot", t.where(), "'..' excluded: %s" % proofs))
+        else:
+            out.append(violated("C03.R3", key + ":dotdot", t.where(),
+                                "creating open can be handed '..' together with O_PATH: the kernel ignores O_CREAT under O_PATH and opens the parent of the resolved "
+                                "directory (for a bare '..' the parent of the root) instead of refusing with EISDIR; flags at the call: %r" % (v,),
+                                {"excluded": sorted(ex), "proofs": proofs}))
     return out
 
 
